@@ -522,6 +522,12 @@ func TestC35(t *testing.T) {
 				}
 				// non-vacuity: the unaltered relay is served, signed by the node key, recorded exactly once
 				if err != nil || resp == nil {
+					if err != nil && strings.Contains(err.Error(), "already found") {
+						// Bloom-filter false positive of the duplicate check (1 % by design at full allowance): a refused relay is
+						// outside the property (which only limits what IS served); not a non-vacuity failure either
+						c.Label("unique-relay-refused-by-bloom-false-positive")
+						continue
+					}
 					c.Violation("C35/valid-relay-rejected/"+alt.name, "%s: a well-formed relay was not served", desc)
 					continue
 				}
